@@ -91,7 +91,7 @@ def load_known():
         return json.load(fh)
 
 
-def run(ruleset, F, tier, seed, t0, extra_rules=(), checker_cmd=''):
+def run(ruleset, F, tier, seed, t0, extra_rules=(), checker_cmd='', write_evidence=True):
     """Evaluate all rules; print report; write evidence; return exit code."""
     prop = ruleset.prop
     known = load_known()
@@ -135,8 +135,9 @@ def run(ruleset, F, tier, seed, t0, extra_rules=(), checker_cmd=''):
         print('KNOWN-FINDING: property=%s %s [%s] %s' % (prop, v['key'], v.get('loc'), v['message']))
     for n, v in enumerate(new_viol):
         rp = os.path.join(replay_dir, '%s_%d.json' % (prop, n))
-        with open(rp, 'w') as fh:
-            json.dump(v, fh, indent=1)
+        if write_evidence:
+            with open(rp, 'w') as fh:
+                json.dump(v, fh, indent=1)
         print('  rule %s (%s) in %s at %s: %s' % (v['rule'], v['kind'], v['function'], v.get('loc'), v['message']))
         if v.get('path'):
             print('    path: %s' % v['path'])
@@ -190,9 +191,10 @@ def run(ruleset, F, tier, seed, t0, extra_rules=(), checker_cmd=''):
         'wall_s': round(time.time() - t0, 2),
         'violations': len(new_viol),
     }
-    os.makedirs(os.path.join(VERIF, 'evidence'), exist_ok=True)
-    with open(os.path.join(VERIF, 'evidence', '%s.json' % prop), 'w') as fh:
-        json.dump(ev, fh, indent=1)
+    if write_evidence:
+        os.makedirs(os.path.join(VERIF, 'evidence'), exist_ok=True)
+        with open(os.path.join(VERIF, 'evidence', '%s.json' % prop), 'w') as fh:
+            json.dump(ev, fh, indent=1)
     print('%s: %d rules, %d discharged, %d sites, %d functions, %d known findings, %d new violations, %d infra errors'
           % (prop, obligations, discharged, sites, len(fns), len(seen_known), len(new_viol), len(infra_errors)))
     if new_viol:
